@@ -299,7 +299,8 @@ func SchemaCells() []Cell {
 	return out
 }
 
-// ParamCells: parameter declarations (C04/C05/C01): kind × location × required × declaration form × level.
+// ParamCells: parameter declarations (C04/C05/C01): kind × location × required × declaration form × level
+// (operation, path item, operation overriding the path item, inherited while a sibling operation overrides).
 func ParamCells() []Cell {
 	var out []Cell
 	bools := []bool{false, true}
@@ -316,9 +317,12 @@ func ParamCells() []Cell {
 					continue
 				}
 				for _, decl := range []string{"inline", "schema-ref", "schema-alias", "param-ref"} {
-					for _, level := range []string{"op", "pathitem", "override"} {
+					for _, level := range []string{"op", "pathitem", "override", "sibling"} {
 						for _, null := range bools {
 							if null && (decl != "inline" || level != "op") {
+								continue
+							}
+							if level == "sibling" && decl == "schema-alias" {
 								continue
 							}
 							s, pi, op := Base()
@@ -354,6 +358,16 @@ func ParamCells() []Cell {
 								}
 								pi.Params = append(pi.Params, &spec.Param{Name: "v", In: l.in, Required: req, Schema: other})
 								op.Params = append(op.Params, use)
+							case "sibling":
+								// the path item declares the parameter; GET (the judged operation) inherits it while a
+								// sibling DELETE re-declares it with another type
+								other := spec.T("string")
+								if k.Name == "string" {
+									other = spec.TF("integer", "int32")
+								}
+								pi.Params = append(pi.Params, use)
+								pi.Ops = append(pi.Ops, &spec.Op{Method: "DELETE", Responses: []*spec.Response{{Status: "default", Desc: "d"}},
+									Params: []*spec.Param{{Name: "v", In: l.in, Required: req, Schema: other}}})
 							}
 							out = append(out, NewCell("param", map[string]string{"kind": k.Name, "loc": l.name, "req": b01(req), "decl": decl, "level": level, "null": b01(null)}, s))
 						}
